@@ -69,3 +69,90 @@ def bracket_bounds(tab, Tg, Pg, T, P):
     p0, p1 = bracket(lp, x)
     nodes = np.array([tab[p, t] for p in {p0, p1} for t in {t0, t1}])
     return nodes.min(axis=0) / 1e4, nodes.max(axis=0) / 1e4
+
+
+# ---------------------------------------------------------------------------
+# physical constants typed in (SI).  CODATA 2018 exact values.
+K_BOLTZ = 1.380649e-23
+H_PLANCK = 6.62607015e-34
+C_LIGHT = 299792458.0
+G_NEWTON = 6.6743e-11
+
+
+# ---------------------------------------------------------------------------
+# C01 transit geometry and integral
+
+def chord_segments(r_tangent, shell_tops):
+    """Lengths of the chord at tangent radius r_tangent inside successive
+    spherical shells whose outer radii are shell_tops (ascending, all > r_tangent):
+    2*(sqrt(r_k^2 - r_t^2) - sqrt(r_{k-1}^2 - r_t^2)), the innermost measured
+    from the tangent point."""
+    out = []
+    prev = 0.0
+    for r in shell_tops:
+        half = math.sqrt(max(r * r - r_tangent * r_tangent, 0.0))
+        out.append(2.0 * (half - prev))
+        prev = half
+    return out
+
+
+def path_lengths_legacy(Rp, z, dz):
+    """convention of the legacy method: tangent radius Rp + dz[0]/2 + z[l];
+    shell tops Rp + dz[0]/2 + z[k] + dz[k]/2 for k >= l"""
+    n = len(z)
+    res = []
+    for l in range(n):
+        rt = Rp + dz[0] / 2.0 + z[l]
+        tops = [Rp + dz[0] / 2.0 + z[k] + dz[k] / 2.0 for k in range(l, n)]
+        res.append(chord_segments(rt, tops))
+    return res
+
+
+def path_lengths_new(Rp, z, dz, zb):
+    """convention of the ray-tracing method: tangent radius Rp + z[l] + dz[l]/2
+    (layer mid-altitude); shell tops are the layer boundaries Rp + zb[k+1]"""
+    n = len(z)
+    res = []
+    for l in range(n):
+        rt = Rp + z[l] + dz[l] / 2.0
+        tops = [Rp + zb[k + 1] for k in range(l, n)]
+        res.append(chord_segments(rt, tops))
+    return res
+
+
+def transit_depth(Rp, Rs, z, dz, trans):
+    """(Rp^2 + 2 sum_l (Rp+z_l)(1-T_l) dz_l)/Rs^2 ; trans[l, wn]"""
+    n, nw = trans.shape
+    out = []
+    for w in range(nw):
+        s = 0.0
+        for l in range(n):
+            s += (Rp + z[l]) * (1.0 - trans[l, w]) * dz[l] * 2.0
+        out.append((Rp * Rp + s) / (Rs * Rs))
+    return np.array(out)
+
+
+def slant_tau(path, sigmas, density, powers, cutoff=10.0):
+    """tau[l, wn] = sum_c sum_k sigma_c[l+k, wn] * n[l+k]^p_c * path[l][k], contributions in
+    the given order; per layer, once the running minimum over wn exceeds `cutoff`
+    the remaining contributions are skipped (the licensed early exit).
+    sigmas entries may be ('layer', array) for per-layer opacities that are added
+    directly (cloud decks).  Returns tau and a flag telling whether any running
+    minimum came within 1e-6 (relative) of the cut-off."""
+    n = len(path)
+    nw = sigmas[0][1].shape[1]
+    tau = np.zeros((n, nw))
+    borderline = False
+    for l in range(n):
+        for (kind, sig), p in zip(sigmas, powers):
+            m = tau[l].min()
+            if abs(m - cutoff) <= 1e-6 * cutoff:
+                borderline = True
+            if m > cutoff:
+                break
+            if kind == 'layer':
+                tau[l] = tau[l] + sig[l]
+                continue
+            for k in range(len(path[l])):
+                tau[l] = tau[l] + sig[l + k] * (density[l + k] ** p) * path[l][k]
+    return tau, borderline
